@@ -6,7 +6,7 @@ import Resynth.Lemmas.InterpBasic
 writer-over-`Res` monad that records every call of `exec` (also on failing runs).
 `evalT_fst`/`evalArgsT_fst` show that forgetting the trace gives back `eval`/`evalArgs`.
 -/
-namespace Resynth
+namespace Resynth.Sem
 
 /-- one call of `exec`: its inputs and what it returned -/
 structure ExecEv where
@@ -478,4 +478,4 @@ theorem evalArgsT_inv (env : Env) : ∀ (a : Args) (st : PState), TInv env st.he
     exact TInv.pure env _ st2
 end
 
-end Resynth
+end Resynth.Sem
